@@ -47,6 +47,7 @@ type CheckRun struct {
 	knownLines  []string
 	nViol       int
 	validation  ValidationReport
+	mismatchesReported int
 }
 
 type CaseReport struct {
@@ -114,53 +115,18 @@ func (r *CheckRun) Run() int {
 	}
 	defer os.RemoveAll(r.tmpDir)
 
-	r.prog, err = LoadProgram(r.spec, r.verifDir, r.repoDir)
-	if err != nil {
-		fmt.Fprintln(os.Stderr, "load:", err)
-		r.problems = append(r.problems, "load: "+err.Error())
-		r.writeEvidence()
-		return 2
+	top := r.spec
+	parts := []*CheckSpec{top}
+	if len(top.Parts) > 0 {
+		parts = top.Parts
 	}
-	// the SSA program is a large, long-lived heap: collect less often while interpreting
-	debug.SetGCPercent(400)
-	r.logf("[%s] loaded %s in %.1fs (ssa build %.1fs)", r.spec.Property, r.spec.Package, r.prog.loadTime.Seconds(), r.prog.buildTime.Seconds())
-
-	var entries []*EntrySpec
-	for _, e := range r.spec.Entries {
-		if r.only != "" && e.Func != r.only {
-			continue
-		}
-		if r.tierOf(e).Skip {
-			continue
-		}
-		entries = append(entries, e)
-	}
-
-	if !r.noValidate {
-		r.validate(entries)
-	}
-	r.pool = &MachinePool{prog: r.prog, cross: r.cross, timeout: 20000}
-	defer r.pool.Close()
-
-	for _, e := range entries {
-		t := r.tierOf(e)
-		for _, params := range expandGrid(t) {
-			cr := r.explore(e, t, params)
-			r.caseReports = append(r.caseReports, cr)
-			r.logf("[%s] %s{%s}: paths=%d outcomes=%v obligations=%d/%d viol=%d branchq=%d steps=%d wall=%.1fs solver=%.1fs",
-				r.spec.Property, e.Func, cr.Params, cr.Paths, cr.Outcomes, cr.Discharged, cr.Obligations, len(cr.violations), cr.BranchQ, cr.Steps, cr.WallS, cr.SolverS)
-			for k, v := range cr.Solvers {
-				r.logf("    solver %s: %s", k, v)
-			}
-			for k, v := range cr.detail {
-				if k != "ok" && k != "assume-dead" {
-					r.logf("    %s: %s", k, firstLine(v, 400))
-				}
-			}
+	for i, part := range parts {
+		part.Property = top.Property
+		if !r.runPart(part, i) {
+			break
 		}
 	}
-
-	r.triage()
+	r.spec = top
 	r.writeEvidence()
 
 	for _, l := range r.knownLines {
@@ -180,6 +146,68 @@ func (r *CheckRun) Run() int {
 	}
 	fmt.Printf("OK property=%s tier=%s cases=%d\n", r.spec.Property, r.tier, len(r.caseReports))
 	return 0
+}
+
+// runPart loads one harness package and runs its entries (validation, exploration,
+// triage with native replay).
+func (r *CheckRun) runPart(part *CheckSpec, idx int) bool {
+	var err error
+	r.spec = part
+	r.testBin = ""
+	partDir, _ := os.MkdirTemp(r.tmpDir, "part")
+	saveTmp := r.tmpDir
+	r.tmpDir = partDir
+	defer func() { r.tmpDir = saveTmp }()
+	r.prog, err = LoadProgram(part, r.verifDir, r.repoDir)
+	if err != nil {
+		fmt.Fprintln(os.Stderr, "load:", err)
+		r.problems = append(r.problems, "load: "+err.Error())
+		return false
+	}
+	// the SSA program is a large, long-lived heap: collect less often while interpreting
+	debug.SetGCPercent(400)
+	r.logf("[%s] loaded %s in %.1fs (ssa build %.1fs)", r.spec.Property, r.spec.Package, r.prog.loadTime.Seconds(), r.prog.buildTime.Seconds())
+
+	var entries []*EntrySpec
+	for _, e := range r.spec.Entries {
+		if r.only != "" && e.Func != r.only {
+			continue
+		}
+		if r.tierOf(e).Skip {
+			continue
+		}
+		entries = append(entries, e)
+	}
+	if len(entries) == 0 {
+		return true
+	}
+
+	if !r.noValidate {
+		r.validate(entries)
+	}
+	r.pool = &MachinePool{prog: r.prog, cross: r.cross, timeout: 20000}
+	defer r.pool.Close()
+
+	first := len(r.caseReports)
+	for _, e := range entries {
+		t := r.tierOf(e)
+		for _, params := range expandGrid(t) {
+			cr := r.explore(e, t, params)
+			r.caseReports = append(r.caseReports, cr)
+			r.logf("[%s] %s{%s}: paths=%d outcomes=%v obligations=%d/%d viol=%d branchq=%d steps=%d wall=%.1fs solver=%.1fs",
+				r.spec.Property, e.Func, cr.Params, cr.Paths, cr.Outcomes, cr.Discharged, cr.Obligations, len(cr.violations), cr.BranchQ, cr.Steps, cr.WallS, cr.SolverS)
+			for k, v := range cr.Solvers {
+				r.logf("    solver %s: %s", k, v)
+			}
+			for k, v := range cr.detail {
+				if k != "ok" && k != "assume-dead" {
+					r.logf("    %s: %s", k, firstLine(v, 400))
+				}
+			}
+		}
+	}
+	r.triage(first)
+	return true
 }
 
 func firstLine(s string, n int) string {
@@ -274,7 +302,7 @@ func (r *CheckRun) loadKnown() []knownFinding {
 	return out
 }
 
-func (r *CheckRun) triage() {
+func (r *CheckRun) triage(first int) {
 	known := r.loadKnown()
 	isKnown := func(entry, label string) *knownFinding {
 		for i := range known {
@@ -286,7 +314,7 @@ func (r *CheckRun) triage() {
 		return nil
 	}
 	seenKnown := map[string]bool{}
-	for i := range r.caseReports {
+	for i := first; i < len(r.caseReports); i++ {
 		cr := &r.caseReports[i]
 		tag := fmt.Sprintf("%s{%s}", cr.Entry, cr.Params)
 		for _, f := range cr.fatal {
@@ -368,8 +396,9 @@ func (r *CheckRun) triage() {
 		}
 
 	}
-	if len(r.validation.Mismatches) > 0 {
-		r.problems = append(r.problems, fmt.Sprintf("translator validation: %d mismatch(es): %s", len(r.validation.Mismatches), r.validation.Mismatches[0]))
+	if len(r.validation.Mismatches) > r.mismatchesReported {
+		r.problems = append(r.problems, fmt.Sprintf("translator validation: %d mismatch(es): %s", len(r.validation.Mismatches), r.validation.Mismatches[r.mismatchesReported]))
+		r.mismatchesReported = len(r.validation.Mismatches)
 	}
 }
 
